@@ -329,25 +329,29 @@ Definition ali_to_ref_dir (pre suf : str) (workers : nat) (order : list nat) (sr
                           end)
               (pool_items workers order (filter (selected pre suf) (listdir src))) dst.
 
+(* the feature file is loaded after the four shape / boundary checks and before the length check *)
+Definition ali_of_ref_feat (feats : option dir) (n : str) (t : tensor) : out tensor :=
+  match feats with
+  | None => ali_of_ref None t
+  | Some fd =>
+      match ali_of_ref None t with
+      | Fail EValue => Fail EValue
+      | _ => match dir_get fd n with
+             | None => Fail EOS
+             | Some f => ali_of_ref (Some (tlen f)) t
+             end
+      end
+  end.
+
 Definition ref_to_ali_dir (pre suf : str) (feats : option dir) (workers : nat) (order : list nat)
   (src dst : dir) : out dir :=
   run_effects (fun n d =>
                  match dir_get src n with
                  | None => Fail EOS
-                 | Some t =>
-                     match (match feats with
-                            | None => Done None
-                            | Some fd => match dir_get fd n with
-                                         | Some f => Done (Some (tlen f))
-                                         | None => Fail EOS
-                                         end
-                            end) with
-                     | Fail e => Fail e
-                     | Done T => match ali_of_ref T t with
-                                 | Done a => Done (dir_put n a d)
-                                 | Fail e => Fail e
-                                 end
-                     end
+                 | Some t => match ali_of_ref_feat feats n t with
+                             | Done a => Done (dir_put n a d)
+                             | Fail e => Fail e
+                             end
                  end)
               (pool_items workers order (filter (selected pre suf) (listdir src))) dst.
 
